@@ -397,13 +397,16 @@ class Frame:
             self.env[elt.id] = CONST
             if idx_name:
                 self.env[idx_name] = CONST
+            # at iteration 0 every list holds its single initial element; an append
+            # executed earlier in the same iteration adds one (lengths only grow)
             for lname in builders:
-                self.env[lname] = Arr(NINF, None)
-            for lname, expr in builders.items():
+                self.env[lname] = Arr(NINF, 0)
+            for lname, expr in builders.items():  # body order
                 v = self.ev(expr)
                 if v is TOP:
                     return False
                 worst[lname] = v
+                self.env[lname] = Arr(NINF, 1)
         finally:
             self.env = saved
         for lname in builders:
